@@ -380,6 +380,13 @@ func (mp *MarkLigPos) Sanitize() error {
 	return nil
 }
 
+func (mp *MarkMarkPos) Sanitize() error {
+	if exp, got := mp.Mark1Coverage.Len(), len(mp.Mark1Array.MarkRecords); exp > got {
+		return fmt.Errorf("GPOS: invalid MarkMarkPos marks count (%d > %d)", exp, got)
+	}
+	return nil
+}
+
 func (cs *ContextualPos) Sanitize(lookupCount uint16) error {
 	if f1, isFormat1 := cs.Data.(ContextualPos1); isFormat1 {
 		return (*SequenceContextFormat1)(&f1).sanitize(lookupCount)
